@@ -360,6 +360,7 @@ def read_pcd_shape(rf):
     """ReadPcd must have the modelled shape: three `in.get( c )`, nothing read after the closing backslash"""
     b = _ws(_strip(_body(rf, r"Severity\s+ReadPcd\s*\(", "ReadPcd")))
     want = ("charc;in.get(c);if(c=='\\\\'){in.get(c);if(c=='F'||c=='N'){in.get(c);if(c=='\\\\'){returnSEVERITY_NULL;}}}")
+    b = re.sub(r"^charc='\\0';", "charc;", b)    # an initialised `c` reads the same (the model starts it at 0)
     if not b.startswith(want):
         raise ValueError("ReadPcd: shape not modelled (the model reads exactly three characters `\\F\\` / `\\N\\`)")
     return True
